@@ -237,12 +237,14 @@ def run(ctx: core.Ctx) -> int:
     sub = core.Ctx(ctx.prop, ctx.tier, ctx.repo)
     _c10.step_rules(sub)
     ns = 0
+    # CHAIN belongs to the clause as well: every prediction step starts from the result of the previous one -- a step taken from the held
+    # estimate instead drops the steps before it, so the value folded / held at the reading is not the one the other runtime computes
     for o in sub.obligations:
-        if o.rule in ("DIR", "MAG", "TEMPLATE"):
+        if o.rule in ("DIR", "MAG", "TEMPLATE", "CHAIN"):
             ns += 1
             ctx.obligations.append(core.Obligation("STEP-SIBLINGS", o.where, o.fact, o.ok))
     for f in sub.findings:
-        if f.rule in ("DIR", "MAG", "TEMPLATE"):
+        if f.rule in ("DIR", "MAG", "TEMPLATE", "CHAIN"):
             ctx.find("STEP-SIBLINGS", f.file, f.func, f.construct, f.msg + " -- the two runtimes then issue different sequences of filter calls", f.line)
     for e in sub.errors:
         ctx.error(e)
